@@ -7,6 +7,8 @@
              whether the database holds it before / after the call, with which usage and interface
      dump    the serial numbers of all beacons in the database
      prop    one Propagator.Run: the (egress interface, beacon) pairs handed to senders
+     regrun  one WriteScheduler.Run (GroupWriter + LocalWriter) per segment type: the segments that reached
+             the registrar's segment store
    C25 is an only-if statement: only its clauses are monitors (VERIF-BAD).  "Allowed but not stored /
    not sent" is VERIF-DRIFT.          *)
 EXTENDS BeaconStoreOps, TLC, Json
@@ -97,6 +99,22 @@ Prop ==
                     => Drift("prop:not-sent-although-allowed")
          /\ Keep
 
+\* one WriteScheduler.Run for segment type R.type (1 up, 2 down, 3 core): what reached the registrar's store
+Regrun ==
+    LET u == CASE R.type = 1 -> 1 [] R.type = 2 -> 2 [] OTHER -> 4
+        tn == CASE R.type = 1 -> "up" [] R.type = 2 -> "down" [] OTHER -> "core"
+        bad(i) == LET s == R.segs[i] IN
+                  IF s.k = 0 THEN "reg:registers-unknown-beacon"
+                  ELSE IF s.type # R.type THEN "reg:registered-with-other-segment-type"
+                  ELSE IF ~\E e \in held : e.k = s.k /\ u \in e.usage
+                       THEN "reg:registered-as-" \o tn \o "-without-that-usage"
+                  ELSE ""
+        bads == {i \in 1..Len(R.segs) : bad(i) # ""} IN
+    IF bads # {} THEN Bad(bad(CHOOSE i \in bads : TRUE))
+    ELSE /\ (\E e \in held : u \in e.usage /\ ~\E i \in 1..Len(R.segs) : R.segs[i].k = e.k)
+              => Drift("reg:" \o tn \o "-not-registered-although-usage")
+         /\ Keep
+
 Step == /\ l <= Len(Trace)
         /\ l' = l + 1
         /\ IF R.ev = "reset" THEN Reset
@@ -104,6 +122,7 @@ Step == /\ l <= Len(Trace)
            ELSE CASE R.ev = "handle" -> Handle
                   [] R.ev = "dump" -> Dump
                   [] R.ev = "prop" -> Prop
+                  [] R.ev = "regrun" -> Regrun
                   [] OTHER -> Bad("no-spec-action:" \o R.ev)
 
 Done == /\ l = Len(Trace) + 1
